@@ -8,6 +8,8 @@ pub enum Layout {
     OneTokenPerLine,
     /// everything on one line, single spaces, no final newline
     SingleLine,
+    /// like SingleLine but newline-terminated: exactly as many bytes as OneTokenPerLine
+    SingleLineNl,
     /// single spaces, tokens glued where safe, final newline
     Compact,
     /// like `Pretty` but CRLF line ends
@@ -22,8 +24,8 @@ pub enum Layout {
     RandomWithPrefix,
 }
 
-pub const NAMED: [Layout; 8] = [
-    Layout::OneTokenPerLine, Layout::SingleLine, Layout::Compact, Layout::Crlf, Layout::Pretty, Layout::NoFinalNewline,
+pub const NAMED: [Layout; 9] = [
+    Layout::OneTokenPerLine, Layout::SingleLineNl, Layout::SingleLine, Layout::Compact, Layout::Crlf, Layout::Pretty, Layout::NoFinalNewline,
     Layout::Random, Layout::RandomWithPrefix,
 ];
 
@@ -32,6 +34,7 @@ impl Layout {
         match self {
             Layout::OneTokenPerLine => "one_token_per_line",
             Layout::SingleLine => "single_line",
+            Layout::SingleLineNl => "single_line_final_newline",
             Layout::Compact => "compact",
             Layout::Crlf => "crlf",
             Layout::Pretty => "pretty",
@@ -160,7 +163,7 @@ pub fn lay(toks: &[Tok], layout: Layout, rng: &Rng) -> (Laid, Vec<&'static str>)
             let can_glue = (is_glue_punct(&prev.s) || is_glue_punct(&t.s)) && !t.ws_only_before;
             match layout {
                 Layout::OneTokenPerLine => text.push('\n'),
-                Layout::SingleLine => text.push(' '),
+                Layout::SingleLine | Layout::SingleLineNl => text.push(' '),
                 Layout::Compact => {
                     if !can_glue {
                         text.push(' ');
@@ -196,7 +199,7 @@ pub fn lay(toks: &[Tok], layout: Layout, rng: &Rng) -> (Laid, Vec<&'static str>)
         text.push_str(&t.s);
     }
     match layout {
-        Layout::OneTokenPerLine | Layout::Compact | Layout::Pretty => text.push('\n'),
+        Layout::OneTokenPerLine | Layout::Compact | Layout::Pretty | Layout::SingleLineNl => text.push('\n'),
         Layout::Crlf => text.push_str("\r\n"),
         Layout::Random | Layout::RandomWithPrefix => {
             if rng.chance(1, 2) {
